@@ -187,7 +187,6 @@ C23Step(m, e) ==
         IN IF m.cfg.role = "acc" THEN
               LET targetok == ~m.cfg.enforce \/ i.tci = m.cfg.sender
                   listed == m.cfg.clients = <<>> \/ \E k \in DOMAIN m.cfg.clients : m.cfg.clients[k] = i.sci
-                  seqok == i.reset \/ i.seq = (IF m.cfg.cfg_recv # 0 THEN m.cfg.cfg_recv ELSE IF e.pre.ctrl # <<>> THEN e.pre.ctrl[2] ELSE 1)
               IN IF completed /\ ~(targetok /\ listed)
                  THEN [ok |-> FALSE, why |-> "logon_accepted_wrongly",
                        sig |-> "acc_accept:" \o (IF ~targetok THEN "target" ELSE "client_list"), m |-> m]
@@ -199,8 +198,6 @@ C23Step(m, e) ==
                  THEN [ok |-> FALSE, why |-> "reset_not_to_one", sig |-> "acc_reset_send", m |-> m]
                  ELSE IF completed /\ i.reset /\ i.seq = 1 /\ e.post.nr # 2
                  THEN [ok |-> FALSE, why |-> "reset_not_to_one", sig |-> "acc_reset_recv", m |-> m]
-                 ELSE IF ~completed /\ targetok /\ listed /\ seqok
-                 THEN [ok |-> FALSE, why |-> "good_logon_refused", sig |-> "acc_refused_good", m |-> m]
                  ELSE [ok |-> TRUE, why |-> "", sig |-> "", m |-> m]
            ELSE \* initiator: response must mirror its identity
               LET mirror == i.sci = m.cfg.target /\ i.tci = m.cfg.sender IN
@@ -208,8 +205,6 @@ C23Step(m, e) ==
               THEN [ok |-> FALSE, why |-> "mismatched_logon_response_accepted",
                     sig |-> "ini_mismatch:" \o (IF i.sci # m.cfg.target /\ i.tci # m.cfg.sender THEN "both"
                                                 ELSE IF i.sci # m.cfg.target THEN "sender_only" ELSE "target_only"), m |-> m]
-              ELSE IF mirror /\ ~completed /\ i.seq = e.pre.nr
-              THEN [ok |-> FALSE, why |-> "matching_logon_response_refused", sig |-> "ini_refused_good", m |-> m]
               ELSE [ok |-> TRUE, why |-> "", sig |-> "", m |-> m]
     ELSE [ok |-> TRUE, why |-> "", sig |-> "", m |-> m]
 
@@ -262,7 +257,9 @@ Book(m, e) ==
                       !.logged = IF e.e \in {"Restart", "Drop"} THEN FALSE ELSE logonDone,
                       !.lastSent = IF e.out # <<>> THEN e.now ELSE m.lastSent,
                       !.lastRecv = IF recvValid THEN e.now ELSE m.lastRecv,
-                      !.trPending = IF sentTR THEN TRUE ELSE IF recvValid THEN FALSE ELSE m.trPending,
+                      \* only an inbound Heartbeat answers a pending TestRequest (the statement's wording)
+                      !.trPending = IF sentTR THEN TRUE
+                                    ELSE IF recvValid /\ e.in[1].valid /\ e.in[1].type = "0" THEN FALSE ELSE m.trPending,
                       !.trAt = IF sentTR THEN e.now ELSE m.trAt]
 
 MonStep(m, e) ==
